@@ -20,7 +20,7 @@ R4 binding tree construction (added): `put` stores the value at the node reached
    starts it at the root (`self.filesystem`, no inherited target) and no binding insertion (`put` or a WorkflowConfig
    method that reaches `put`) is reachable in the caller's CFG after the call: inheritance is materialised on the
    complete tree (set_targets never overwrites, so a value frozen on a half-built tree shadows a binding listed later).
-R5 resolution is a function of the configuration at hand: the resolver functions (get_binding_config and its callees
+R5 resolution is a function of the configuration at hand: the resolver functions (get_binding_config, _get_workdir and their callees
    in streamflow.deployment.utils / streamflow.config.config, every WorkflowConfig method, set_targets) carry no
    memoising decorator, no mutable default argument, no `global`/`nonlocal` declaration, and never store into / call a
    mutating method on an object rooted at a module-level name (module dict, function attribute, imported module).  A
@@ -733,7 +733,7 @@ def _state_leaks(p, f):
 
 def _resolvers(p):
     mods = (CFGM, DU)
-    todo = [GBC, f"{CFGM}.set_targets"] + [m.qualname for m in p.cls(WC).methods.values()]
+    todo = [GBC, GWD, f"{CFGM}.set_targets"] + [m.qualname for m in p.cls(WC).methods.values()]
     seen = {}
     while todo:
         q = todo.pop()
@@ -756,8 +756,7 @@ def _resolvers(p):
 def r5(ctx):
     p = ctx.prog
     fs = _resolvers(p)
-    ctx.require(any(f.qualname == GWD for f in fs) and any(f.qualname == PROP for f in fs),
-                "C28.R5: _get_workdir / propagate are not among the functions reached from get_binding_config")
+    ctx.require({GBC, GWD, PROP} <= {f.qualname for f in fs}, "C28.R5: get_binding_config / _get_workdir / propagate not found")
     for f in fs:
         leaks = _state_leaks(p, f)
         ctx.ob("R5", f"{f.qualname} keeps no state outside the configuration it is given", not leaks, func=f,
@@ -767,7 +766,7 @@ def r5(ctx):
 
 
 RULES = [("R1", r1), ("R2", r2), ("R3", r3), ("R4", r4), ("R5", r5)]
-FLOORS = {"R1": 14, "R2": 10, "R3": 6, "R4": 6}
+FLOORS = {"R1": 14, "R2": 10, "R3": 6, "R4": 9, "R5": 9}
 
 _FALLBACK_OLD = "        return BindingConfig(targets=targets, filters=[FilterConfig(name=c.name, type=c.type, config=c.config) for c in config.get('filters')])\n    else:\n        return BindingConfig(targets=[LocalTarget()])"
 
@@ -815,6 +814,39 @@ VARIANTS = [
     V("set_targets recursion passes the parent's target", CFILE, f"{CFGM}.set_targets", "set_targets(node, node['step'])", "set_targets(node, target)", "R4"),
     V("put stores at every level", CFILE, PUT,
       "current_node = current_node['children'][part]\n    current_node[name] = value", "current_node = current_node['children'][part]\n        current_node[name] = value", "R4"),
+    # ---- R4: inheritance materialised on the complete tree
+    V("set_targets inside the binding loop (seeded C28-2)", CFILE, f"{WC}.__init__",
+      "self._process_binding(binding)\n    set_targets(self.filesystem, None)",
+      "self._process_binding(binding)\n        set_targets(self.filesystem, None)", "R4", control=True),
+    V("set_targets before the bindings are inserted", CFILE, f"{WC}.__init__",
+      "for binding in workflow_config.get('bindings', []):\n        self._process_binding(binding)\n    set_targets(self.filesystem, None)",
+      "set_targets(self.filesystem, None)\n    for binding in workflow_config.get('bindings', []):\n        self._process_binding(binding)", "R4"),
+    V("a binding inserted after set_targets", CFILE, f"{WC}.__init__", "\n    self._check_stacked_deployments()",
+      "\n    self._check_stacked_deployments()\n    for late in workflow_config.get('extraBindings', []):\n        self._process_binding(late)", "R4"),
+    V("set_targets only on the first binding's iteration", CFILE, f"{WC}.__init__",
+      "self._process_binding(binding)\n    set_targets(self.filesystem, None)",
+      "self._process_binding(binding)\n        if binding.get('step') == '/':\n            set_targets(self.filesystem, None)", "R4"),
+    V("set_targets started below the root", CFILE, f"{WC}.__init__", "set_targets(self.filesystem, None)",
+      "set_targets(self.filesystem['children'].get('/', self.filesystem), None)", "R4"),
+    V("set_targets started with a target", CFILE, f"{WC}.__init__", "set_targets(self.filesystem, None)",
+      "set_targets(self.filesystem, {'targets': [], 'filters': []})", "R4"),
+    V("set_targets call removed", CFILE, f"{WC}.__init__", "    set_targets(self.filesystem, None)\n", "", "R4"),
+    # ---- R5: nothing memoised across configurations
+    V("workdir memoised in a module dict, return shape kept (seeded C28-3 essence)", UFILE, GWD, "    return workdir",
+      "    workdir = _workdirs.setdefault(deployment['name'], workdir)\n    return workdir", "R5",
+      append="_workdirs = {}\n"),
+    V("workdir memoised in a module dict by subscript store", UFILE, GWD, "    return workdir",
+      "    _workdirs[deployment['name']] = workdir\n    return workdir", "R5", append="_workdirs = {}\n"),
+    V("functools.cache on _get_workdir", UFILE, GWD, "def _get_workdir(", "@functools.cache\ndef _get_workdir(", "R5"),
+    V("lru_cache on propagate", CFILE, PROP, "def propagate(", "@lru_cache(maxsize=None)\ndef propagate(", "R5"),
+    V("memo in a mutable default argument", CFILE, PROP, "default: Any | None=None)", "default: Any | None=None, _memo: dict={})", "R5"),
+    V("memo as a function attribute", UFILE, GBC, "config = workflow_config.propagate(path, target_type)",
+      "config = workflow_config.propagate(path, target_type)\n    get_binding_config.seen[name] = config", "R5"),
+    V("memo through a global rebinding", UFILE, GBC, "path = PurePosixPath(name)",
+      "global _last\n    path = PurePosixPath(name)\n    _last = (name, target_type)", "R5"),
+    V("memo written by a new helper of get_binding_config", UFILE, GBC, "config = workflow_config.propagate(path, target_type)",
+      "config = _remember(name, workflow_config.propagate(path, target_type))", "R5",
+      append="_seen = {}\n\n\ndef _remember(name, config):\n    return _seen.setdefault(name, config)\n"),
     # ---- benign
     V("rename locals of propagate", CFILE, PROP, "current_node", "cur", None, count=6),
     V("early-continue style", CFILE, PROP, "if name in current_node:\n            value = current_node[name]",
@@ -830,4 +862,15 @@ VARIANTS = [
       "if deployment['name'] not in deployments:\n                deployments.add(deployment['name'])\n                continue\n            raise WorkflowDefinitionException('circular reference')", None),
     V("reorder independent constructor statements", CFILE, f"{WC}.__init__",
       "set_targets(self.filesystem, None)\n    self._check_stacked_deployments()", "self._check_stacked_deployments()\n    set_targets(self.filesystem, None)", None),
+    V("set_targets on a temporary, keyword style, logging in between", CFILE, f"{WC}.__init__", "set_targets(self.filesystem, None)",
+      "root = self.filesystem\n    logger.debug('bindings inserted')\n    set_targets(current_node=root, target=None)", None),
+    V("set_targets run twice on the complete tree", CFILE, f"{WC}.__init__", "set_targets(self.filesystem, None)",
+      "set_targets(self.filesystem, None)\n    set_targets(self.filesystem, None)", None),
+    V("bindings collected first, inserted by index", CFILE, f"{WC}.__init__",
+      "for binding in workflow_config.get('bindings', []):\n        self._process_binding(binding)",
+      "todo = list(workflow_config.get('bindings', []))\n    i = 0\n    while i < len(todo):\n        self._process_binding(todo[i])\n        i += 1", None),
+    V("per-call local table and module constant in _get_workdir", UFILE, GWD, "    return workdir",
+      "    chain = {}\n    chain[deployment.get(_NAME)] = workdir\n    return workdir", None, append="_NAME = 'name'\n"),
+    V("per-call mutable locals in get_binding_config", UFILE, GBC, "path = PurePosixPath(name)",
+      "trace = []\n    trace.append(name)\n    path = PurePosixPath(name)", None),
 ]
